@@ -1,6 +1,10 @@
 From Coq Require Import extraction.Extraction extraction.ExtrOcamlBasic.
-From TU Require Import Base C10_Model.
+From TU Require Import Base C10_Model C10_Seam.
 Definition run := run_C10.
 Definition check := check_C10.
-Definition agree (inp m i : val) : bool := val_eqb m i.
+(** exact on the outputs; in grapheme mode additionally: the cluster lists the harness supplies
+    are [segment] of their concatenation ([uax29_agree]), the harness' seam flag is the model's
+    [seam_safe], and inside the domain of [operations_repair_roundtrip_u] the KF1 class flag is
+    off ([xcheck]) *)
+Definition agree (inp m i : val) : bool := agree_C10 inp m i.
 Extraction "model.ml" run check agree.
